@@ -196,6 +196,69 @@ def viewsOf (inherited : Option Nat) (looks : String → Look) (log : List (Nat 
     List (Nat × Option Nat × Option Nat) :=
   log.map fun (j, h) => (j, indexSeen inherited j (looks h), currentSeen inherited j (looks h))
 
+/-! ## Loading the library and the hook's own definitions
+
+Up to its `hook::run "$@"` a hook script is a sequence of two kinds of steps: it defines functions of
+its own (`__config__`, handlers, helpers), and it loads the bundled library (`source /shell_lib.sh`,
+directly or through a shared include, possibly more than once). The property speaks of "a hook that
+loads the bundled shell library and framework" and of "the handler functions defined by the hook
+script"; it does not say in which order the script does the two. In bash the last definition of a name
+wins, whoever made it. `Facts.c19LibFunctions` = every function the library files define when loaded. -/
+
+/-- One step of the script before `hook::run`. -/
+inductive Seg where
+  /-- the hook defines these functions -/
+  | defs (names : List String)
+  /-- `shell_lib.sh` (which sources `frameworks/shell/*.sh`) is loaded -/
+  | lib
+  deriving Repr, DecidableEq
+
+/-- Whose definition a function name is bound to. -/
+inductive Owner where
+  | hook | lib
+  deriving Repr, DecidableEq
+
+/-- The owner of the function bound to `n` after the steps have run, starting from `o`
+(`none` = no such function: `type n` fails). -/
+def bound (n : String) : List Seg → Option Owner → Option Owner
+  | [], o => o
+  | .defs ns :: rest, o => bound n rest (if ns.contains n then some .hook else o)
+  | .lib :: rest, o => bound n rest (if Facts.c19LibFunctions.contains n then some .lib else o)
+
+def boundAfter (segs : List Seg) (n : String) : Option Owner := bound n segs none
+
+/-- The hook script defines `n` in one of its steps. -/
+def definesIn (segs : List Seg) (n : String) : Bool :=
+  segs.any fun
+    | .defs ns => ns.contains n
+    | .lib => false
+
+/-- The names of the hook's side of the interface start with two underscores (`__config__`,
+`__main__`, `__on_…`). -/
+def hookName (n : String) : Bool := n.toList.take 2 == ['_', '_']
+
+/-- The script layouts the harness generates, as step lists (`names` = `__config__`, the helper, the
+defined handlers, in the order the script defines them). -/
+def layoutSegs (layout : String) (names : List String) : Option (List Seg) :=
+  if layout == "first" || layout == "include" then some [.lib, .defs names]
+  else if layout == "last" then some [.defs names, .lib]
+  else if layout == "twice" then some [.lib, .defs names, .lib]
+  else if layout == "between" then
+    let h := (names.length + 1) / 2
+    some [.defs (names.take h), .lib, .defs (names.drop h)]
+  else none
+
+/-- `hook::run "$@"` of a script with the steps `segs`: the functions `type` finds and the
+`__config__` that runs are the ones bound when `hook::run` is called. A name bound to a definition of
+the library is not one of the hook's functions (the hook's handler does not run; the configuration
+is not printed). -/
+def hookRunL (segs : List Seg) (env : Env) (args : List String) (stdin : List String) (ctxs : List Ctx) :
+    Result × List (Option (List String)) :=
+  let envL : Env := { env with defined := fun n => boundAfter segs n == some .hook }
+  if args.head? == some Facts.c19ConfigFlag then
+    (if boundAfter segs Facts.c19ConfigFn == some .hook then ({ config := true }, []) else ({ ok := false }, []))
+  else runFromIO envL 0 stdin ctxs
+
 /-! ## The specification: the documented names and the property as a predicate on one observation -/
 namespace Spec
 
